@@ -32,8 +32,9 @@ import (
 // ---- scripted driver (sequential use only)
 
 type c01Script struct {
-	err     error
-	provErr error // when set the conn's provider fails (no database handle)
+	err       error
+	provErr   error // when set the conn's provider fails (no database handle)
+	commitErr error // what the driver's Commit reports
 }
 
 type c01Connector struct{ s *c01Script }
@@ -54,7 +55,7 @@ func (c *c01DConn) Prepare(string) (driver.Stmt, error) {
 	return c01Stmt{}, nil
 }
 func (c *c01DConn) Close() error              { return nil }
-func (c *c01DConn) Begin() (driver.Tx, error) { return c01Tx{}, nil }
+func (c *c01DConn) Begin() (driver.Tx, error) { return c01Tx{s: c.s}, nil }
 func (c *c01DConn) ExecContext(ctx context.Context, q string, a []driver.NamedValue) (driver.Result, error) {
 	if c.s.err != nil {
 		return nil, c.s.err
@@ -75,9 +76,9 @@ func (c01Stmt) NumInput() int                              { return -1 }
 func (c01Stmt) Exec([]driver.Value) (driver.Result, error) { return driver.RowsAffected(1), nil }
 func (c01Stmt) Query([]driver.Value) (driver.Rows, error)  { return &c01Rows{left: 1}, nil }
 
-type c01Tx struct{}
+type c01Tx struct{ s *c01Script }
 
-func (c01Tx) Commit() error   { return nil }
+func (t c01Tx) Commit() error { return t.s.commitErr }
 func (c01Tx) Rollback() error { return nil }
 
 type c01Rows struct{ left int }
@@ -119,11 +120,45 @@ type c01Outcome struct {
 	name   string
 	err    error
 	benign bool
+	txOnly bool // outcome of Transact's own Commit: only on Transact / TransactCtx
 }
 
 var c01Custom = errors.New("c01: error accepted by the conn's custom accept option")
 
 var c01ProvErr = errors.New("c01: provider cannot open the database")
+
+// outcomes produced by Transact's own Commit (the body returns nil)
+var (
+	c01CommitEarly  = errors.New("c01: body commits the transaction itself; Transact's Commit reports sql.ErrTxDone")
+	c01CommitTxDone = errors.New("c01: the driver's Commit reports sql.ErrTxDone")
+	c01CommitFail   = errors.New("c01: the driver's Commit fails")
+	c01CommitBoom   = errors.New("c01: driver: commit failed, connection lost")
+	// set when the Session handed to the body offers no Commit (row cannot be driven)
+	c01NoCommitter bool
+)
+
+// c01TxBody builds the Transact body and arms the scripted driver for a commit outcome.
+func c01TxBody(e *c01Env, err error) func(Session) error {
+	e.script.commitErr = nil
+	switch err {
+	case c01CommitEarly:
+		return func(s Session) error {
+			c, ok := s.(interface{ Commit() error })
+			if !ok {
+				c01NoCommitter = true
+				return nil
+			}
+			return c.Commit()
+		}
+	case c01CommitTxDone:
+		e.script.commitErr = sql.ErrTxDone
+		return func(Session) error { return nil }
+	case c01CommitFail:
+		e.script.commitErr = c01CommitBoom
+		return func(Session) error { return nil }
+	}
+	return func(Session) error { return err }
+}
 
 type c01Env struct {
 	conn   *commonConn
@@ -226,15 +261,16 @@ func c01Call(e *c01Env, path string, err error) error {
 		return e.conn.QueryRowsPartialCtx(ctx, &vs, q)
 	case "Transact":
 		e.script.err = nil
-		return e.conn.Transact(func(Session) error { return err })
+		return e.conn.Transact(c01TxBody(e, err))
 	default:
 		e.script.err = nil
-		return e.conn.TransactCtx(ctx, func(context.Context, Session) error { return err })
+		body := c01TxBody(e, err)
+		return e.conn.TransactCtx(ctx, func(_ context.Context, s Session) error { return body(s) })
 	}
 }
 
 func TestVerifC01SQLBenignTable(t *testing.T) {
-	m := vk.New(t, "C01", "sqlx conn over a scripted driver, real breaker behind a transparent spy, virtual clock frozen. Rows: conn flavour {plain NewConnFromDB, accept option set, NewMySQL (constructor-wired mysql accept)} x entry point {Exec, Prepare, QueryRow, QueryRowPartial, QueryRows, QueryRowsPartial, Transact and their Ctx forms} x outcome, each on a fresh conn. Benign on EVERY flavour {nil, sql.ErrNoRows, sql.ErrTxDone, context.Canceled} plus what the flavour's own accept declares benign (custom error / MySQL 1062) x150 => predicate true every time and the protected function always runs; failing {driver error, io.ErrUnexpectedEOF, context.DeadlineExceeded, provider cannot open the database, error the flavour does not accept} x400 => predicate false and at least one call short-circuited with ErrServiceUnavailable; 10000 mixed benign outcomes over all entry points on one conn per flavour => 0 rejections; non-trivial = row completed (benign) / rejected (failing)")
+	m := vk.New(t, "C01", "sqlx conn over a scripted driver, real breaker behind a transparent spy, virtual clock frozen. Rows: conn flavour {plain NewConnFromDB, accept option set, NewMySQL (constructor-wired mysql accept)} x entry point {Exec, Prepare, QueryRow, QueryRowPartial, QueryRows, QueryRowsPartial, Transact and their Ctx forms} x outcome, each on a fresh conn. Benign on EVERY flavour {nil, sql.ErrNoRows, sql.ErrTxDone, context.Canceled; on Transact/TransactCtx also sql.ErrTxDone reported by Transact's own Commit because the body already committed or the driver says so} plus what the flavour's own accept declares benign (custom error / MySQL 1062) x150 => predicate true every time and the protected function always runs; failing {driver error, io.ErrUnexpectedEOF, context.DeadlineExceeded, provider cannot open the database, driver Commit error, error the flavour does not accept} x400 => predicate false and at least one call short-circuited with ErrServiceUnavailable; 10000 mixed benign outcomes over all entry points on one conn per flavour => 0 rejections; non-trivial = row completed (benign) / rejected (failing)")
 	defer m.Done()
 	logx.Disable()
 	stat.SetReporter(nil)
@@ -248,19 +284,23 @@ func TestVerifC01SQLBenignTable(t *testing.T) {
 	dup := &mysql.MySQLError{Number: 1062, Message: "c01 duplicate entry"}
 	tooMany := &mysql.MySQLError{Number: 1040, Message: "c01 too many connections"}
 	common := []c01Outcome{
-		{"nil", nil, true},
-		{"ErrNoRows", sql.ErrNoRows, true},
-		{"ErrTxDone", sql.ErrTxDone, true},
-		{"context.Canceled", context.Canceled, true},
-		{"driver-error", boom, false},
-		{"unexpected-EOF", io.ErrUnexpectedEOF, false},
-		{"context.DeadlineExceeded", context.DeadlineExceeded, false},
-		{"provider-error", c01ProvErr, false},
+		{"nil", nil, true, false},
+		{"ErrNoRows", sql.ErrNoRows, true, false},
+		{"ErrTxDone", sql.ErrTxDone, true, false},
+		{"context.Canceled", context.Canceled, true, false},
+		{"driver-error", boom, false, false},
+		{"unexpected-EOF", io.ErrUnexpectedEOF, false, false},
+		{"context.DeadlineExceeded", context.DeadlineExceeded, false, false},
+		{"provider-error", c01ProvErr, false, false},
+		// Transact's own Commit reports the benign sql.ErrTxDone (body finished the transaction / driver says so)
+		{"commit-ErrTxDone-body-committed-early", c01CommitEarly, true, true},
+		{"commit-ErrTxDone-from-driver", c01CommitTxDone, true, true},
+		{"commit-driver-error", c01CommitFail, false, true},
 	}
 	extra := map[string][]c01Outcome{
-		"plain":         {{"custom-not-accepted", c01Custom, false}},
-		"custom-accept": {{"custom-accepted", c01Custom, true}, {"mysql-1062-not-accepted", dup, false}},
-		"mysql":         {{"mysql-1062-duplicate-entry", dup, true}, {"mysql-1040", tooMany, false}, {"custom-not-accepted", c01Custom, false}},
+		"plain":         {{"custom-not-accepted", c01Custom, false, false}},
+		"custom-accept": {{"custom-accepted", c01Custom, true, false}, {"mysql-1062-not-accepted", dup, false, false}},
+		"mysql":         {{"mysql-1062-duplicate-entry", dup, true, false}, {"mysql-1040", tooMany, false, false}, {"custom-not-accepted", c01Custom, false, false}},
 	}
 	idx := 0
 	for _, flavour := range []string{"plain", "custom-accept", "mysql"} {
@@ -270,6 +310,9 @@ func TestVerifC01SQLBenignTable(t *testing.T) {
 			for _, oc := range outcomes {
 				idx++
 				if !m.Only(idx) {
+					continue
+				}
+				if oc.txOnly && path != "Transact" && path != "TransactCtx" {
 					continue
 				}
 				e := c01NewEnv(flavour)
@@ -283,7 +326,7 @@ func TestVerifC01SQLBenignTable(t *testing.T) {
 				label := flavour + ":" + path + ":" + oc.name
 				desc := fmt.Sprintf("case=%d;%s conn, %s with outcome %s on a fresh conn", idx, flavour, path, oc.name)
 				if oc.benign {
-					if path == c01Paths[0] {
+					if path == c01Paths[0] || (oc.txOnly && path == "Transact") {
 						benignErrs = append(benignErrs, oc.err)
 					}
 					okRow := true
@@ -291,6 +334,14 @@ func TestVerifC01SQLBenignTable(t *testing.T) {
 						before, vb := e.spy.ran, e.spy.verdicts
 						got := c01Call(e, path, oc.err)
 						m.Count("calls_benign_"+flavour, 1)
+						if c01NoCommitter {
+							m.Skip("the Session handed to a Transact body offers no Commit: row " + label + " skipped")
+							c01NoCommitter = false
+							break
+						}
+						if oc.txOnly {
+							m.Count("transactions_whose_commit_reported_ErrTxDone", 1)
+						}
 						if e.spy.ran == before {
 							m.Violate("C01:benign:sql:"+label+":dropped", desc, "call #%d short-circuited (%v) after only %s outcomes", i, got, oc.name)
 							okRow = false
@@ -344,6 +395,18 @@ func TestVerifC01SQLBenignTable(t *testing.T) {
 				}
 			}
 		}
+		// informational only (NOT asserted: the statement leaves a composite "body error + rollback error" open):
+		// the body rolls the transaction back itself and returns sql.ErrNoRows, so Transact's own Rollback reports ErrTxDone
+		if flavour == "plain" && m.Only(3000) {
+			e := c01NewEnv(flavour)
+			got := e.conn.Transact(func(s Session) error {
+				if rb, ok := s.(interface{ Rollback() error }); ok {
+					_ = rb.Rollback()
+				}
+				return sql.ErrNoRows
+			})
+			m.Note("not asserted: body rolled back early and returned sql.ErrNoRows => Transact returned %q, conn predicate answered %v", fmt.Sprint(got), e.spy.lastAcc)
+		}
 		// scan error (one column into a two-field struct): QueryRow's own scanner error is benign
 		if m.Only(1000 + len(flavour)) {
 			e := c01NewEnv(flavour)
@@ -369,6 +432,9 @@ func TestVerifC01SQLBenignTable(t *testing.T) {
 			for i := 0; i < n; i++ {
 				path := c01Paths[r.Intn(len(c01Paths))]
 				err := benignErrs[r.Intn(len(benignErrs))]
+				if err == c01CommitEarly || err == c01CommitTxDone {
+					path = []string{"Transact", "TransactCtx"}[r.Intn(2)]
+				}
 				before := e.spy.ran
 				got := c01Call(e, path, err)
 				m.Count("calls_benign_mixed_"+flavour, 1)
